@@ -310,6 +310,7 @@ def gen(rng, idx, tier):
             hand = list(rng.choice(cands_))
     return {"stratum": stratum, "fmt": fmt, "lib": rng.choice(["defcon", "ufoLib2"]),
             "hand_drawn_in_second_master": hand,
+            "named_layer": stratum == "static" and rng.random() < 0.2,
             "skip": skip, "delivery": delivery, "only_skipped_categorised": only_skipped_categorised,
             "ufo_lib_decoy": ([rng.choice([n for n in names if n not in skip] or names)]
                               if delivery == "dslib" and rng.random() < 0.5 else None),
@@ -364,6 +365,10 @@ def compile_pair(case, with_skip):
             else:
                 spec["lib"]["public.skipExportGlyphs"] = list(case["decoy"])
                 kw["skipExportGlyphs"] = list(skip)
+        if case.get("named_layer"):
+            # the same glyphs once more in a named layer, which is the one compiled
+            spec["layers"] = {"bold": copy.deepcopy(spec["glyphs"])}
+            kw["layerName"] = "bold"
         font = build_ufo(spec, case["lib"])
         tt = ufo2ft.compileOTF(font, **kw) if case["fmt"] == "otf" else ufo2ft.compileTTF(font, **kw)
         fonts = [tt]
@@ -719,6 +724,8 @@ def run(case):
         return {"status": "violated", "counters": counters, "violations": [
             {"mech": "skip_compile_exception", "detail": {"trace": traceback.format_exc()[-2500:]}}]}
     bump("pairs_compiled")
+    if case.get("named_layer"):
+        bump("static_compiles_of_a_named_layer")
     bump("ttf_cases" if case["fmt"] == "ttf" else "otf_cases")
     if case["delivery"] == "both":
         bump("arg_overrides_lib")
